@@ -1,254 +1,21 @@
-//! Kani harnesses over a real (multi-resource) `World`: `WorldExt` glue of `/repo`.
+//! Kani harnesses over a REAL multi-resource `World` (`WorldExt` glue of `/repo`):
+//!   C05  deleting an entity purges its components from every storage known to the world
+//!   C09  maintain applies deferred work exactly once, in order, after merging entities
+//!
+//! The `World` is shred's own code over the `shred-verif` model's resource table (per-type
+//! integer keys, fixed-capacity association list); `WorldExt::new`, `register`, system-data
+//! `setup`, `delete_entities`, `delete_all`, `maintain`, `delete_components`, `LazyUpdate` and the
+//! `MetaTable` walk are the unmodified `/repo` / shred sources.
 #![allow(clippy::needless_range_loop)]
 
 use specs::prelude::*;
-use specs::storage::{AnyStorage, MaskedStorage};
-use shred::MetaTable;
+use specs::world::{EntitiesRes, Index, VerifSlot};
 use vsupport::{harness, nd, witness};
 
-#[derive(Debug, Default, PartialEq, Eq)]
-pub struct CA(pub u8);
-impl Component for CA {
-    type Storage = VecStorage<Self>;
-}
-#[derive(Debug, Default, PartialEq, Eq)]
-pub struct CB(pub u8);
-impl Component for CB {
-    type Storage = DenseVecStorage<Self>;
-}
+pub mod env;
+pub mod purge;
+pub mod lazy;
 
-#[cfg(kani)]
-#[kani::proof]
-#[kani::unwind(6)]
-#[kani::stub(core::fmt::write, vsupport::fmt_write_stub)]
-fn probe_a() {
-    // only shred: table + metatable
-    let mut world = World::empty();
-    world.insert(5u32);
-    world.insert(MetaTable::<dyn AnyStorage>::default());
-    assert!(*world.fetch::<u32>() == 5);
-    *world.fetch_mut::<u32>() = 7;
-    assert!(*world.fetch::<u32>() == 7);
-    std::mem::forget(world);
-}
+pub use env::*;
 
-#[cfg(kani)]
-#[kani::proof]
-#[kani::unwind(6)]
-#[kani::stub(core::fmt::write, vsupport::fmt_write_stub)]
-fn probe_b() {
-    let mut world = World::empty();
-    world.insert(MetaTable::<dyn AnyStorage>::default());
-    world.insert(MaskedStorage::<CA>::new(Default::default()));
-    world.fetch_mut::<MetaTable<dyn AnyStorage>>().register::<MaskedStorage<CA>>();
-    let mut n = 0;
-    for mut s in world.fetch_mut::<MetaTable<dyn AnyStorage>>().iter_mut(&world) {
-        (*s).drop(&[]);
-        n += 1;
-    }
-    assert!(n == 1);
-    std::mem::forget(world);
-}
-
-#[cfg(kani)]
-#[kani::proof]
-#[kani::unwind(6)]
-#[kani::stub(core::fmt::write, vsupport::fmt_write_stub)]
-fn probe_c() {
-    let mut world = World::new();
-    world.register::<CA>();
-    let e0 = world.create_entity().build();
-    assert!(world.is_alive(e0));
-    std::mem::forget(world);
-}
-
-#[cfg(kani)]
-#[kani::proof]
-#[kani::unwind(6)]
-#[kani::stub(core::fmt::write, vsupport::fmt_write_stub)]
-fn probe_world0() {
-        let mut world = World::new();
-        world.register::<CA>();
-        let e0 = world.create_entity().with(CA(1)).build();
-        let e1 = world.create_entity().with(CA(2)).build();
-        assert!(world.read_storage::<CA>().get(e1).map(|c| c.0) == Some(2));
-        let r = world.delete_entity(e0);
-        assert!(r.is_ok());
-        std::mem::forget(r);
-        assert!(world.read_storage::<CA>().get(e0).is_none());
-        assert!(world.read_storage::<CA>().get(e1).map(|c| c.0) == Some(2));
-        std::mem::forget(world);
-}
-
-pub struct RV {
-    pub v: Vec<u64>,
-    pub w: Vec<u64>,
-}
-
-#[cfg(kani)]
-#[kani::proof]
-#[kani::unwind(6)]
-fn probe_d() {
-    let mut world = World::empty();
-    world.insert(RV { v: Vec::new(), w: Vec::new() });
-    {
-        let mut r = world.fetch_mut::<RV>();
-        let mut i = 0;
-        while i < r.v.len() {
-            i += 1;
-        }
-        r.v.push(3);
-        r.w.push(4);
-    }
-    {
-        let r = world.fetch::<RV>();
-        let mut i = 0;
-        while i < r.v.len() {
-            i += 1;
-        }
-        assert!(i == 1);
-    }
-    std::mem::forget(world);
-}
-
-#[cfg(kani)]
-#[kani::proof]
-#[kani::unwind(6)]
-fn probe_e() {
-    let mut world = World::empty();
-    world.insert(MetaTable::<dyn AnyStorage>::default());
-    world.fetch_mut::<MetaTable<dyn AnyStorage>>().register::<MaskedStorage<CA>>();
-    std::mem::forget(world);
-}
-
-#[cfg(kani)]
-#[kani::proof]
-#[kani::unwind(6)]
-fn probe_f() {
-    let a = shred::ResourceId::new::<u32>();
-    let b = shred::ResourceId::new::<u64>();
-    let a2 = shred::ResourceId::new::<u32>();
-    let mut i = 0;
-    while a == b && i < 100 {
-        i += 1;
-    }
-    let mut j = 0;
-    while a != a2 && j < 100 {
-        j += 1;
-    }
-    assert!(i == 0 && j == 0);
-}
-
-#[cfg(kani)]
-#[kani::proof]
-#[kani::unwind(6)]
-fn probe_g() {
-    let mut world = World::empty();
-    world.insert(RV { v: Vec::new(), w: Vec::new() });
-    let r = world.get_mut::<RV>().unwrap();
-    let mut i = 0;
-    while i < r.v.len() {
-        i += 1;
-    }
-    assert!(i == 0);
-    std::mem::forget(world);
-}
-
-#[cfg(kani)]
-#[kani::proof]
-#[kani::unwind(6)]
-fn probe_h() {
-    use shred::cell::{AtomicRefCell, AtomicRef};
-    let cell: AtomicRefCell<Box<dyn shred::Resource>> = AtomicRefCell::new(Box::new(RV { v: Vec::new(), w: Vec::new() }));
-    let b = cell.borrow();
-    let m = AtomicRef::map(b, Box::as_ref);
-    let r: &RV = unsafe { m.downcast_ref_unchecked() };
-    let mut i = 0;
-    while i < r.v.len() {
-        i += 1;
-    }
-    assert!(i == 0);
-    std::mem::forget(m);
-    std::mem::forget(cell);
-}
-
-#[cfg(kani)]
-#[kani::proof]
-#[kani::unwind(6)]
-fn probe_i() {
-    use shred::cell::{AtomicRefCell, AtomicRef};
-    let cell: AtomicRefCell<RV> = AtomicRefCell::new(RV { v: Vec::new(), w: Vec::new() });
-    let b = cell.borrow();
-    let mut i = 0;
-    while i < b.v.len() {
-        i += 1;
-    }
-    assert!(i == 0);
-    std::mem::forget(b);
-    std::mem::forget(cell);
-}
-
-#[cfg(kani)]
-#[kani::proof]
-#[kani::unwind(6)]
-fn probe_j() {
-    let mut world = World::empty();
-    world.insert(RV { v: Vec::new(), w: Vec::new() });
-    let r = world.fetch::<RV>();
-    let mut i = 0;
-    while i < r.v.len() {
-        i += 1;
-    }
-    assert!(i == 0);
-    std::mem::forget(r);
-    std::mem::forget(world);
-}
-
-#[cfg(kani)]
-#[kani::proof]
-#[kani::unwind(6)]
-fn probe_k() {
-    let mut world = World::empty();
-    world.insert(RV { v: Vec::new(), w: Vec::new() });
-    let r = match world.try_fetch::<RV>() { Some(r) => r, None => return };
-    let mut i = 0;
-    while i < r.v.len() {
-        i += 1;
-    }
-    assert!(i == 0);
-    std::mem::forget(r);
-    std::mem::forget(world);
-}
-
-#[cfg(kani)]
-#[kani::proof]
-#[kani::unwind(6)]
-fn probe_l() {
-    use shred::cell::{AtomicRefCell, AtomicRef};
-    let cell: AtomicRefCell<Box<dyn shred::Resource>> = AtomicRefCell::new(Box::new(RV { v: Vec::new(), w: Vec::new() }));
-    let r = shred::Fetch::<RV>::verif_from_cell(&cell);
-    let mut i = 0;
-    while i < r.v.len() {
-        i += 1;
-    }
-    assert!(i == 0);
-    std::mem::forget(r);
-    std::mem::forget(cell);
-}
-
-#[cfg(kani)]
-#[kani::proof]
-#[kani::unwind(6)]
-fn probe_m() {
-    let mut world = World::empty();
-    world.insert(RV { v: Vec::new(), w: Vec::new() });
-    let c = match unsafe { world.try_fetch_internal(shred::ResourceId::new::<RV>()) } { Some(r) => r, None => return };
-    let r = shred::Fetch::<RV>::verif_from_cell(c);
-    let mut i = 0;
-    while i < r.v.len() {
-        i += 1;
-    }
-    assert!(i == 0);
-    std::mem::forget(r);
-    std::mem::forget(world);
-}
+include!("variants.rs");
